@@ -1,10 +1,10 @@
 package main
 
 import (
-	"strings"
 	"encoding/hex"
 	"fmt"
 	"os"
+	"strings"
 )
 
 // ProgCase (C03 / C04 in-program part): one program; every embedded label and
@@ -442,6 +442,10 @@ func c03Random(r *Rand, mode int, org int64, withJumps bool) *ProgCase {
 					}
 					if mode == 32 || dist < 110 {
 						out = append(out, PStmt{K: "jmp", Mn: Pick(r, []string{"JMP", "JE", "JNE", "JB", "JAE", "JS", "JNZ", "CALL"}), Label: l})
+						if !defined && r.Chance(1, 2) {
+							// a second forward reference to the same, still undefined label (the first one leaves a placeholder in the symbol table)
+							out = append(out, PStmt{K: "jmp", Mn: Pick(r, []string{"JE", "JMP", "JNZ"}), Label: l})
+						}
 					}
 				}
 			}
